@@ -149,6 +149,9 @@ def kx_obligations(unit_name, desc, tier, hres):
                 m = re.match(r'OB (\S+?):', fc['desc'])
                 if m:
                     oid = '%s/%s/%s' % (unit_name, short, m.group(1).split('/', 1)[-1] if m.group(1).startswith(unit_name + '/') else m.group(1))
+                elif fc['desc'].lstrip().startswith('|') and h.get('obligations'):
+                    # the ensures closure of a Kani function contract (proof_for_contract harness)
+                    oid = '%s/%s/%s' % (unit_name, short, h['obligations'][0])
                 else:
                     oid = '%s/%s/safety' % (unit_name, short)
                 failed.setdefault(oid, []).append('%s @ %s' % (fc['desc'], fc['loc']))
